@@ -493,6 +493,61 @@ def _ndarr_getitem(interp, a, k):
     raise Unsupported("array index")
 
 
+class ElemArr(object):
+    """array defined elementwise: element i is fn(i) for 0 <= i < length (numeric, over the reals)"""
+
+    def __init__(self, length, fn, dtype=None):
+        self.length = length
+        self.fn = fn
+        self.dtype_ = dtype
+
+    def sym_len(self):
+        return self.length
+
+    def _map(self, g):
+        f = self.fn
+        return ElemArr(self.length, lambda i: g(f(i)), self.dtype_)
+
+    def __mul__(self, o):
+        return self._map(lambda x: x * o)
+
+    __rmul__ = __mul__
+
+    def __add__(self, o):
+        return self._map(lambda x: x + o)
+
+    def __radd__(self, o):
+        return self._map(lambda x: o + x)
+
+    def astype(self, dt):
+        M.trusted("ndarray.astype('timedelta64[u]') of floats truncates each element toward zero")
+        if isinstance(dt, str) and dt.startswith("timedelta64["):
+            from .timemodel import TD64
+            u = dt[len("timedelta64["):-1]
+            return self._map(lambda x: TD64(M.m_int(None, x) if is_sym(x) else int(x), u))
+        raise Unsupported("astype %r" % (dt,))
+
+
+def m_linspace(interp, start, stop, num=50):
+    M.trusted("numpy.linspace(a, b, n): n points a + i*(b-a)/(n-1) (n >= 2), [a] for n == 1, empty for n == 0 "
+              "(over the reals)")
+    from .sym import SymReal
+    if not (is_sym(start) or is_sym(stop) or is_sym(num)):
+        return np.linspace(start, stop, num)
+    st = sym.get_state()
+    if interp.truth(num < 0):
+        from .interp import ProgExc
+        raise ProgExc(ValueError, "negative number of samples")
+
+    def fn(i):
+        if interp.truth(num == 1):
+            return start
+        # num >= 2 on this path (element access requires 0 <= i < num)
+        d = stop - start
+        return start + (i * d) / SymReal(z3.ToReal(_z(num - 1)))
+    return ElemArr(num, fn, np.dtype("float64"))
+
+
 class FieldView(object):
     """arr['field'] of a structured abstract array"""
 
@@ -587,7 +642,10 @@ def install(interp, m):
         "zeros": lambda *a, **k: m_zeros(interp, *a, **k),
         "empty": lambda *a, **k: m_empty(interp, *a, **k),
         "cumsum": lambda *a, **k: m_cumsum(interp, *a, **k),
+        "linspace": lambda *a, **k: m_linspace(interp, *a, **k),
     }
+    from . import timemodel
+    timemodel.install(interp, table)
     interp.external["numpy"] = M.NpProxy(np, table)
     m[("getitem", FileArr)] = _filearr_getitem
     m[("getitem", ListArr)] = _listarr_getitem
